@@ -52,6 +52,19 @@ def run(repo, rep):
     rule_random(repo, rep)
     rule_order(repo, rep)
     rule_singletons(repo, rep)
+    # the graph name is the input file's base name (path entry points) or a constant (convert_bytes): nothing that is written to the
+    # output model - subgraph names prefix the command-stream / flash / scratch tensor names - may be derived from it
+    rd = repo.mod("tflite_reader")
+    gi = rd.func("TFLiteGraph.__init__")
+    n_nm = 0
+    for st in ast.walk(gi):
+        if isinstance(st, ast.Assign) and isinstance(st.targets[0], ast.Attribute) and norm(st.targets[0].value) in ("sg", "tens", "op"):
+            n_nm += 1
+            leak = [str(norm(x)) for x in ast.walk(st.value) if (isinstance(x, ast.Attribute) and norm(x) == "self.name") or (isinstance(x, ast.Name) and x.id == "filename")]
+            rep.check(not leak, "C14-b", "ethosu/vela/tflite_reader.py:TFLiteGraph.__init__", f"`{str(norm(st))[:70]}` does not depend on the graph / file name",
+                      f"uses {leak}: the same model bytes compile to different output files through convert_bytes and through a file path (or under two file names)")
+    if n_nm < 3:
+        raise AnalysisError("TFLiteGraph.__init__: subgraph attribute assignments not found")
     rep.clause("C14-d", "a compilation works on private copies of the model's constant data (it neither mutates the caller's buffer nor shares storage between tensors) [rule shared with C11-d3]")
     from . import c11
 
@@ -134,6 +147,20 @@ def rule_state(repo, rep):
         n += 1
         if key in HISTORY_SAFE:
             rep.ok("C14-a", site, f"process-wide store {qn}", "history-safe: " + HISTORY_SAFE[key])
+            if key == ("weight_compressor", "CompressedWeightCache.cache"):
+                # safe only as a grow-only map: an eviction / clear makes a later hit depend on how many entries earlier compilations left
+                wc_ = repo.mod("weight_compressor")
+                ev = []
+                for q_, f_ in wc_.functions.items():
+                    for x_ in ast.walk(f_):
+                        if isinstance(x_, ast.Call) and isinstance(x_.func, ast.Attribute) and x_.func.attr in ("clear", "pop", "popitem") and "cache" in str(norm(x_.func.value)):
+                            ev.append(f"{q_}: {norm(x_)}")
+                        if isinstance(x_, ast.Delete) and "cache" in str(norm(x_)):
+                            ev.append(f"{q_}: {norm(x_)}")
+                        if isinstance(x_, ast.Assign) and str(norm(x_.targets[0])).endswith("CompressedWeightCache.cache") and q_ != "CompressedWeightCache.__init__":
+                            ev.append(f"{q_}: {norm(x_)}")
+                rep.check(not ev, "C14-a", site, "the compression cache only grows (no eviction, clear or rebinding while compiling)",
+                          f"{ev[:2]}: whether two operators sharing a weight tensor get the same encoded tensor now depends on how full earlier compilations left the cache")
             continue
         if key in RESETS:
             reset = RESETS[key]
@@ -261,8 +288,6 @@ def rule_order(repo, rep):
                     v = s.value
                     if isinstance(v, (ast.Set, ast.SetComp)) or (isinstance(v, ast.Call) and call_name(v) in ("set", "frozenset")):
                         sets.add(s.targets[0].id)
-            if not sets:
-                continue
             site = f"ethosu/vela/{mname}.py:{q}"
             for node in walk_no_nested(fn):
                 # iteration over the set
@@ -277,7 +302,10 @@ def rule_order(repo, rep):
                     if isinstance(src, ast.Call) and call_name(src) in ("enumerate", "list", "tuple", "reversed"):
                         wrapped = call_name(src)
                         src = src.args[0] if src.args else src
-                    if isinstance(src, ast.Name) and src.id in sets:
+                    inline = isinstance(src, (ast.Set, ast.SetComp)) or (isinstance(src, ast.Call) and call_name(src) in ("set", "frozenset"))
+                    if inline:
+                        src = ast.Name(id=str(norm(src))[:40], ctx=ast.Load())
+                    if inline or (isinstance(src, ast.Name) and src.id in sets):
                         n += 1
                         par = m.parents.get(node) if isinstance(node, ast.comprehension) else None
                         gp = m.parents.get(par) if par is not None else None
@@ -297,6 +325,11 @@ def rule_order(repo, rep):
                         if isinstance(node, ast.For):
                             body_txt = " ".join(norm(x) for x in node.body)
                             order_free = not re.search(r"\.append\(|\.extend\(|yield |\.insert\(|\+= \[", body_txt)
+                            lv = {x.id for x in ast.walk(node.target) if isinstance(x, ast.Name)}
+                            for c_ in ast.walk(ast.Module(body=node.body, type_ignores=[])):
+                                # handing the element to another function of the compiler: what that function appends to is built in set order
+                                if isinstance(c_, ast.Call) and isinstance(c_.func, ast.Name) and c_.func.id in m.functions and any(isinstance(a_, ast.Name) and a_.id in lv for a_ in c_.args):
+                                    order_free = False
                             rep.check(order_free, "C14-c", site, f"for ... in {norm(it)}: body does not build an ordered result",
                                       "a list is built in set iteration order (hash / identity order)")
                             continue
